@@ -198,9 +198,14 @@ CreateValidator(v, tok) ==
               [kind |-> "create", v |-> v])
 
 \* the staking module's pattern: new := old.PartialCopy(); modify; UpdateValidator(new, old)
+\* Valid use: the record's total never drops below what is delegated to it (the validator's own part stays >= 0); the
+\* staking handlers check this before mutating, and a record with a negative own part cannot even be encoded (the root
+\* computation panics with "rlp: cannot encode negative *big.Int"), so such a state has no roots to compare.
+DlTotal(r) == LET S[A \in SUBSET Accts] == IF A = {} THEN 0 ELSE LET x == CHOOSE y \in A : TRUE IN r.dl[x] + S[A \ {x}]
+              IN S[Accts]
 UpdateValidator(v, dtok, flip) ==
    /\ st[<<"val", v>>].ex
-   /\ st[<<"val", v>>].tok + dtok >= 0
+   /\ st[<<"val", v>>].tok + dtok >= DlTotal(st[<<"val", v>>])
    /\ LET old == st[<<"val", v>>]
           nv  == [old EXCEPT !.tok = @ + dtok, !.on = IF flip THEN ~@ ELSE @] IN
       ValStep([op |-> "UpdateValidator", v |-> v, d |-> dtok, flip |-> flip],
